@@ -34,3 +34,48 @@ func (l *LogDB) VerifC09Preopen(shardID uint64,
 func VerifC09IndexBlockSize() int64 {
 	return indexBlockSize
 }
+
+// VerifC09IndexEntry mirrors indexEntry for the white-box index checks.
+type VerifC09IndexEntry struct {
+	Start   uint64
+	End     uint64
+	FileNum uint64
+	Pos     int64
+	Length  int64
+}
+
+func verifC09ToIndex(entries []VerifC09IndexEntry) *index {
+	idx := &index{}
+	for _, e := range entries {
+		idx.entries = append(idx.entries, indexEntry{start: e.Start, end: e.End,
+			fileNum: fileNum(e.FileNum), pos: e.Pos, length: e.Length})
+	}
+	return idx
+}
+
+func verifC09FromEntries(entries []indexEntry) []VerifC09IndexEntry {
+	result := make([]VerifC09IndexEntry, 0, len(entries))
+	for _, e := range entries {
+		result = append(result, VerifC09IndexEntry{Start: e.start, End: e.end,
+			FileNum: uint64(e.fileNum), Pos: e.pos, Length: e.length})
+	}
+	return result
+}
+
+// VerifC09IndexUpdate runs index.update(e) on an index holding entries and
+// returns the resulting entries.
+func VerifC09IndexUpdate(entries []VerifC09IndexEntry,
+	e VerifC09IndexEntry) []VerifC09IndexEntry {
+	idx := verifC09ToIndex(entries)
+	idx.update(indexEntry{start: e.Start, end: e.End,
+		fileNum: fileNum(e.FileNum), pos: e.Pos, length: e.Length})
+	return verifC09FromEntries(idx.entries)
+}
+
+// VerifC09IndexQuery runs index.query(low, high).
+func VerifC09IndexQuery(entries []VerifC09IndexEntry,
+	low uint64, high uint64) ([]VerifC09IndexEntry, bool) {
+	idx := verifC09ToIndex(entries)
+	result, ok := idx.query(low, high)
+	return verifC09FromEntries(result), ok
+}
